@@ -93,6 +93,10 @@ func JS(ops []Op) string {
 			b.WriteString("return 42;\n")
 		case "emitbad":
 			b.WriteString("_.out(function(){ return 1; });\n")
+		case "retgetter":
+			b.WriteString("return {get x() { throw new Error('boom'); }};\n")
+		case "retcyclic":
+			b.WriteString("var cyc__ = []; cyc__.push(cyc__); return cyc__;\n")
 		default:
 			panic("unknown op " + o.Name)
 		}
@@ -151,9 +155,9 @@ func Native(ops []Op, partial bool) func(context.Context, match.Bindings, core.S
 			case "retnull":
 				exe.Bs = nil
 				return exe, nil
-			case "throw", "emitbad":
+			case "throw", "emitbad", "retgetter":
 				return fail(errBoom)
-			case "retscalar":
+			case "retscalar", "retcyclic":
 				return fail(errors.New("42 (int64) isn't Bindings (native)"))
 			case "loop":
 				select {
